@@ -693,6 +693,34 @@ fn special_input_slice(ctx: &mut Ctx) {
         }
     }
     let _ = std::fs::remove_file(&fifo);
+    // runs of 300 000 bare delimiters between the items, the binary under a 1 MiB stack: repeated
+    // separators yield no argument however many they are (-0, -d C, and blanks/newlines in default mode)
+    for (opts, delim) in [(vec!["-0"], 0u8), (vec!["-d", "\\n"], b'\n'), (vec!["-d", ","], b','), (vec![], b'\n'), (vec![], b' ')] {
+        let mut data: Vec<u8> = b"a".to_vec();
+        data.extend(std::iter::repeat(delim).take(300_000));
+        data.extend_from_slice(b"b");
+        data.push(delim);
+        data.extend_from_slice(b"c");
+        data.extend(std::iter::repeat(delim).take(300_000));
+        data.extend_from_slice(b"d");
+        data.extend(std::iter::repeat(delim).take(5));
+        let _ = std::fs::remove_file(&log);
+        let mut args: Vec<&OsStr> = opts.iter().map(OsStr::new).collect();
+        args.extend([OsStr::new("-n2"), vrec.as_os_str(), log.as_os_str()]);
+        let o = crate::binrun::run(&xargs, &args, &sbx, &crate::binrun::Opts { stack: Some(1 << 20), stdin: Some(data), timeout_s: 60, ..Default::default() });
+        let got: Vec<Vec<String>> = crate::vreclog::read(&log).unwrap_or_default().into_iter().map(|r| r.args.iter().map(|a| String::from_utf8_lossy(a).to_string()).collect()).collect();
+        ctx.rep.evaluations += 1;
+        ctx.rep.nontrivial += 1;
+        ctx.rep.count("special_input_cases", 1);
+        let want: Vec<Vec<String>> = vec![vec!["a".into(), "b".into()], vec!["c".into(), "d".into()]];
+        if got != want || o.code != Some(0) {
+            ctx.rep.violation(
+                "C05 a long run of bare separators: arguments lost, or xargs died",
+                format!("xargs {:?} -n2 on a, 300000 separators (byte {delim:#04x}), b, c, 300000 separators, d under a 1 MiB stack: status {:?} signal {:?}\n expected {:?}\n actual   {:?}\n stderr {:?}", opts, o.code, o.signal, want, got, String::from_utf8_lossy(&o.err).lines().take(2).collect::<Vec<_>>()),
+                json!({"prop":"C05","binary":true,"input":[]}),
+            );
+        }
+    }
     let _ = std::fs::remove_file(&log);
 }
 
